@@ -417,6 +417,15 @@ func (e *MetaExecutor) CreateIterator(nodeID uint64, shardIDs []uint64, ctx cont
 		return nil, err
 	}
 
+	// The remote node produced no iterator for these shards (a shard that was
+	// never written there, or no data for the measurement). An iterator of a
+	// made-up type would decide the type of the merged result and drop the
+	// iterators of the real type next to it.
+	if resp.Type == influxql.Unknown {
+		conn.Close()
+		return nil, nil
+	}
+
 	return query.NewReaderIterator(ctx, conn, resp.Type, resp.Stats), nil
 }
 
